@@ -226,6 +226,9 @@ func genFidelity(c *ctx) {
 			fc.cfg.overwrite = false // duplicate names with -y are refused before the transfer starts
 		}
 		fc.chunk = []int{0, 1, 7, 100, 5000}[c.rng.Intn(5)]
+		if fc.big && fc.chunk > 0 && fc.chunk < 100 {
+			fc.chunk = 100 // megabytes in 1-2 byte reads through pipes (and relays) do not finish within the harness deadline
+		}
 		fc.desc = fmt.Sprintf("%s shape=%d big=%v rechunk=%d seed=%d", describeCfg(fc.cfg), fc.shape, fc.big, fc.chunk, fc.seed)
 		cases[i] = fc
 	}
